@@ -85,13 +85,13 @@ class WindowedCoordinator:
 
         with ThreadPoolExecutor(max_workers=self._max_workers) as pool:
             while current_time < self._end_time:
-                window_end_s = current_time.to_seconds() + self._window_size
+                # Integer-nanosecond arithmetic: going through float seconds can
+                # yield a barrier 1 ns short of end_time (the loop then never
+                # ends) or a window longer than the minimum link latency.
+                window_end = current_time + self._window_size
                 # Clamp to end_time
-                if self._end_time != Instant.Infinity:
-                    end_s = self._end_time.to_seconds()
-                    if window_end_s > end_s:
-                        window_end_s = end_s
-                window_end = Instant.from_seconds(window_end_s)
+                if window_end > self._end_time:
+                    window_end = self._end_time
 
                 # 1. EXECUTE (parallel)
                 futures = {}
